@@ -5,7 +5,7 @@
 ssize_t g_pos0; size_t g_size0, g_cap0;
 size_t g_wl;          /* logical index of the watched physical slot in the pre-state (>= size: dead slot) */
 uint32_t g_wser;      /* serial stored in the watched slot in the pre-state */
-size_t g_k;           /* arbitrary logical index */
+/* g_k (arbitrary logical index) is declared in specs/rb_prelude.h */
 uint32_t g_popser;    /* serial of the element a pop removes (pre-state) */
 
 #define OBJ(p) __CPROVER_POINTER_OBJECT(p)
